@@ -152,6 +152,47 @@ TypeName(v) == CASE v.t = "unit" -> "Unit" [] v.t = "true" -> "True" [] v.t = "f
                  [] v.t = "byte" -> "Byte" [] v.t = "sym" -> "Symbol" [] v.t = "symlist" -> "SymbolList" [] v.t = "str" -> "CharList" [] v.t = "bytes" -> "ByteList"
                  [] v.t = "pair" -> "Pair" [] v.t = "list" -> "List" [] v.t = "concat" -> "Concatenation" [] v.t = "range" -> "Range" [] v.t = "slice" -> "Slice"
                  [] v.t = "partial" -> "Partial" [] v.t = "expr" -> "Expression" [] v.t = "ext" -> "External" [] v.t = "type" -> "Type" [] OTHER -> "Invalid"
+\* x ~# y : x converted to the type of y (or to the type y names).  Specified here: the identity, the conversions into a list
+\* (a range counts its numbers, text its characters, bytes its bytes, a concatenation its items, a slice of a list the items
+\* it covers, a symbol list its parts), between characters, bytes and numbers, and text to number / character.  The
+\* renderings into text differ between the two stores and are pinned by no property: SKIP.
+RECURSIVE Count(_, _)
+Count(a, b) == IF a > b THEN <<>> ELSE <<MkInt(a)>> \o Count(a + 1, b)
+Digits(cs) == cs # <<>> /\ \A i \in DOMAIN cs : cs[i] >= 48 /\ cs[i] <= 57
+RECURSIVE DecVal(_, _)
+DecVal(cs, i) == IF i = 0 THEN 0 ELSE DecVal(cs, i - 1) * 10 + (cs[i] - 48)
+CastV(x, y) ==
+  LET T == IF y.t = "type" THEN y.v ELSE TypeName(y) IN
+  IF TypeName(x) = T THEN x
+  ELSE IF T = "List" THEN
+     CASE x.t = "range" -> (IF IntRange(x) /\ RangeLen(x) <= 40 THEN [t |-> "list", v |-> Count(x.l.v, x.r.v)] ELSE SKIP)
+       [] x.t = "str" -> [t |-> "list", v |-> [i \in DOMAIN x.v |-> [t |-> "char", v |-> x.v[i]]]]
+       [] x.t = "bytes" -> [t |-> "list", v |-> [i \in DOMAIN x.v |-> [t |-> "byte", v |-> x.v[i]]]]
+       [] x.t = "concat" -> [t |-> "list", v |-> Flat(x)]
+       [] x.t = "symlist" -> [t |-> "list", v |-> x.v]
+       [] x.t = "slice" -> (IF x.l.t \in {"list", "str", "bytes"} /\ IntRange(x.r) /\ x.r.l.v >= 0 /\ x.r.r.v < Len(x.l.v)
+                            THEN (LET part == SubSeq(x.l.v, x.r.l.v + 1, x.r.r.v + 1) IN
+                                  [t |-> "list", v |-> IF x.l.t = "list" THEN part ELSE [i \in DOMAIN part |-> [t |-> IF x.l.t = "str" THEN "char" ELSE "byte", v |-> part[i]]]])
+                            ELSE SKIP)
+       [] x.t = "unit" -> U
+       [] OTHER -> SKIP
+  ELSE IF T = "Number" THEN
+     CASE x.t = "char" -> MkInt(x.v) [] x.t = "byte" -> MkInt(x.v)
+       [] x.t = "str" -> (IF Digits(x.v) /\ Len(x.v) <= 9 THEN MkInt(DecVal(x.v, Len(x.v))) ELSE IF \A i \in DOMAIN x.v : x.v[i] \notin 43..57 THEN U ELSE SKIP)
+       [] x.t = "unit" -> U
+       [] OTHER -> SKIP
+  ELSE IF T = "Char" THEN
+     CASE x.t = "str" -> (IF Len(x.v) = 1 THEN [t |-> "char", v |-> x.v[1]] ELSE U)
+       [] x.t = "byte" -> [t |-> "char", v |-> x.v]
+       [] x.t = "int" -> (IF x.v >= 0 /\ x.v < 55296 THEN [t |-> "char", v |-> x.v] ELSE SKIP)
+       [] x.t = "unit" -> U
+       [] OTHER -> SKIP
+  ELSE IF T = "Byte" THEN
+     CASE x.t = "int" -> (IF x.v >= 0 /\ x.v <= 255 THEN [t |-> "byte", v |-> x.v] ELSE SKIP)
+       [] x.t = "char" -> (IF x.v <= 255 THEN [t |-> "byte", v |-> x.v] ELSE SKIP)
+       [] x.t = "unit" -> U
+       [] OTHER -> SKIP
+  ELSE SKIP
 \* value of  l . r  /  apply of a list or pair to r  (SKIP = not specified by the listed properties)
 AccessV(l, r) ==
   IF r.t = "int" THEN
@@ -163,8 +204,10 @@ AccessV(l, r) ==
        [] l.t = "symlist" -> [t |-> "symlist", v |-> Append(l.v, r)]
        [] l.t = "concat" -> (LET f == Flat(l) IN IF r.v >= 0 /\ r.v < Len(f) THEN f[r.v + 1] ELSE U)     \* a concatenation is the sequence of the items of both sides
        [] l.t = "range" -> (IF ~IntRange(l) THEN SKIP ELSE IF r.v >= 0 /\ r.v < RangeLen(l) THEN MkInt(l.l.v + r.v) ELSE U)
-       [] l.t = "slice" -> (IF ~(l.l.t = "list" /\ IntRange(l.r) /\ l.r.l.v >= 0) THEN SKIP
-                            ELSE IF r.v >= 0 /\ r.v < RangeLen(l.r) /\ l.r.l.v + r.v < Len(l.l.v) THEN l.l.v[l.r.l.v + r.v + 1] ELSE U)
+       [] l.t = "slice" -> (IF ~(l.l.t \in {"list", "str", "bytes"} /\ IntRange(l.r) /\ l.r.l.v >= 0) THEN SKIP
+                            ELSE IF r.v >= 0 /\ r.v < RangeLen(l.r) /\ l.r.l.v + r.v < Len(l.l.v)
+                                 THEN (LET it == l.l.v[l.r.l.v + r.v + 1] IN IF l.l.t = "list" THEN it ELSE [t |-> IF l.l.t = "str" THEN "char" ELSE "byte", v |-> it])
+                                 ELSE U)
        [] OTHER -> U
   ELSE IF r.t = "sym" THEN
      CASE l.t = "pair" -> (LET x == Lookup(l, r) IN IF x = None THEN U ELSE x[1])
